@@ -20,15 +20,17 @@ CLAIMED = {
              "and reducing whitespace (C07 reduction) gives the original tree - for width 0 (c03_pretty_transparent) and for "
              "every width >= 1 (c03_wrapped_transparent_partial, under the one hypothesis that the indentation string "
              "contains no line break: the unrestricted statement is false, counterexample kept and recorded as open finding "
-             "newline-in-indentation); inserted layout is whitespace only; non-whitespace characters are unaltered; "
+             "newline-in-indentation; the run is proved to terminate with an output for every tag root and covering prefix "
+             "map, so the statement is unconditional: c03_wrapped_transparent_total); inserted layout is whitespace only; non-whitespace characters are unaltered; "
              "xml:space=preserve subtrees are written by the plain serializer without layout. Tie to code: exact output string "
              "of the real serializers == compiled model for reduced mixed-content trees x 7 indentations x 19 widths x "
              "alignment x namespaces, from the root and from subtrees, plus a stream of xml:space nestings below inline "
              "elements; property oracle: Document(output, reduce_whitespace=True) equals the original.",
         note=TB + "Two defects were found by the proof attempt for the wrapping model (counterexamples from the model, replayed "
              "on the implementation): indentation-written-mid-line (fixed, d23109d) and newline-in-indentation (open). Fixed "
-             "earlier: wrapping looked beyond the serialized subtree (8870f79). Fuel: the wrapping model takes fuel; the "
-             "theorem assumes the run ended (= .ok), the harness reports any fuel exhaustion as a mismatch.",
+             "earlier: wrapping looked beyond the serialized subtree (8870f79). Fuel: the wrapping model recurses on fuel; "
+             "that the budget 8*size+32 always suffices and the run always ends in an output is proved "
+             "(c03_wrapped_fuel_suffices, c03_wrapped_total, c03_wrapped_transparent_total; measured need is about 5*size).",
         technique="Lean 4 theorems (laid-out tree read back by the C02 reader and reduced by the C07 reduction; Hoare-style partial correctness of the writer state machine) + byte-exact differential correspondence of both serializer models",
         design="3/C03",
     ),
@@ -63,14 +65,26 @@ CLAIMED = {
              "reading back yields label, prologue, root string and epilogue (c12_read_back); composed with C02 the plain "
              "document round-trips to the normalised root (c12_document_roundtrip); the root setter keeps prologue and "
              "epilogue (spec and the two-stack mechanism _copy_root_siblings); the parser options remove exactly the "
-             "comments / PIs at every depth, in order (c12_drop_exact). Tie to code: bytes of Document.save/write and "
-             "str(Document) for generated documents x 11 encoding labels x 5 newline settings x 7 format options == model "
-             "text, newline-translated and encoded by the named codec; property oracle: the bytes are re-read by delb and "
-             "by lxml and compared with root, prologue and epilogue; root replacement and parser options on the "
-             "implementation == model.",
-        note=TB + "Partial: codecs and io.TextIOWrapper newline translation are runtime behaviour - checked per case, not "
-             "proved; the root's own formatted serialization is the subject of C03/C19 and enters the document model as a string.",
-        technique="Lean 4 theorems (document layer: order, separators, read-back, parser options) + differential correspondence on written bytes",
+             "comments / PIs at every depth, in order (c12_drop_exact). Byte level (Model/Codec.lean, Props/C12Codec.lean): "
+             "UTF-8, UTF-16 (LE/BE/with BOM), Latin-1 and ASCII encoders and strict decoders, io.TextIOWrapper's newline "
+             "translation and XML end-of-line normalisation are modelled; proved for every string: decode(encode s) = s for "
+             "every codec, an encoding fails exactly when some character is not representable, the decoders accept exactly "
+             "the encoders' outputs (no overlong forms, surrogates, truncation), for every newline option and line separator "
+             "a text without CR is read back unchanged after translation, encoding, decoding and end-of-line normalisation "
+             "(c12_bytes_roundtrip, c12_write_read; a literal CR is not preserved: counterexample kept), and an ASCII "
+             "prefix - the XML declaration - is byte-transparent in the ASCII-compatible codecs. Tie to code: bytes of "
+             "Document.save/write and str(Document) for generated documents x 11 encoding labels x 5 newline settings x 7 "
+             "format options == model text, written by the Lean codec model (and, independently, newline-translated and "
+             "encoded by Python's codec), and the Lean decoder + end-of-line normalisation reads the real bytes back into "
+             "the model's text; property oracle: the bytes are re-read by delb and by lxml and compared with root, prologue "
+             "and epilogue, also for a second serialization after comments/PIs were added next to the root through the node "
+             "API; root replacement (another node, the same node) and parser options on the implementation == model.",
+        note=TB + "Partial: the codecs of CPython and libxml2/iconv themselves and io.TextIOWrapper are modelled (and compared "
+             "per case), not verified; only the codecs utf-8, utf-16, iso-8859-1 and ascii are modelled. Which labels a "
+             "reader understands is outside the model: open finding python-only-encoding-label (Python spellings such as "
+             "'latin-1' or 'utf_8' are copied into the declaration and cannot be read back). The root's own formatted "
+             "serialization is the subject of C03/C19 and enters the document model as a string.",
+        technique="Lean 4 theorems (document layer: order, separators, read-back, parser options; byte layer: codec and newline round trips) + differential correspondence on written bytes",
         design="3/C12",
     ),
     "C11": dict(
